@@ -273,10 +273,20 @@ def explore_values(ctx, rng, stats, violations):
         lst = [1, "a\r"]
         lst.append(lst)
         st = sc.make_store("PickleFileStore", os.path.join(d, "value"))
-        st.write(lst)
-        got = st.read()
-        if not (type(got) is list and len(got) == 3 and got[2] is got and got[:2] == [1, "a\r"]):
-            violations.append({"property": "C12", "what": "PickleFileStore lost a cyclic reference", "witness_case": {"kind": "cycle"}})
+        try:
+            st.write(lst)
+            got = st.read()
+            if not (type(got) is list and len(got) == 3 and got[2] is got and got[:2] == [1, "a\r"]):
+                violations.append({"property": "C12", "what": "PickleFileStore lost a cyclic reference", "witness_case": {"kind": "cycle"}})
+            shared = ["x" * 40, {"k": 1}]
+            st.write([shared, shared, {"again": shared}])
+            got = st.read()
+            if not (got[0] is got[1] and got[2]["again"] is got[0] and got[0] == shared):
+                violations.append({"property": "C12", "what": "PickleFileStore: an object referred to three times came back as separate copies",
+                                   "witness_case": {"kind": "cycle"}})
+        except Exception as e:      # noqa: BLE001 - a picklable value (a list that contains itself) must be storable
+            violations.append({"property": "C12", "what": f"PickleFileStore: write / read of a list that contains itself raised {type(e).__name__}: {str(e)[:100]}",
+                               "witness_case": {"kind": "cycle"}})
     # TouchFileStore outside its domain / over foreign content
     for bad in (0, "", False, b"", [], "x"):
         w = witness("TouchFileStore", None, False, None, bad)
@@ -834,6 +844,14 @@ def replay(ctx, payload):
         if w.get("kind") == "mtime":
             found, _, _ = run_mtime(w)
             return "; ".join(found) if found else None
+        if w.get("kind") in ("cycle", "touch-missing", "touch-nonempty"):
+            # the fixed cases at the end of explore_values (a list that contains itself, shared sub-objects, touch files)
+            class Q:
+                tier, driver = "quick", None
+            vv, st2 = [], {"mounted": 0, "touch_rejects": 0, "outside_json_domain_changed": 0}
+            explore_values(Q, random.Random(0), st2, vv)
+            vv = [x for x in vv if x.get("witness_case", {}).get("kind") == w["kind"]]
+            return vv[0]["what"] if vv else None
         if w.get("kind") == "relative":
             vv, st2 = [], {}
             explore_relative(ctx, None, st2, vv, only=w["case"])
